@@ -4,9 +4,9 @@
 (* laws that must hold in the model, checked by TLC over small exact       *)
 (* values.  They guard the oracle of C01-C06 against transcription slips   *)
 (* (a law that fails here is a defect of the MODEL, never of nutils).      *)
-(* One initial state per law; the invariant evaluates the law of the       *)
+(* One state per law (law = k); the invariant evaluates the law of the     *)
 (* state, so a violation names the law in the error trace and every law    *)
-(* is evaluated (no vacuity).                                              *)
+(* is evaluated (no vacuity: NLaws + G distinct states).                   *)
 (***************************************************************************)
 EXTENDS ArraySem
 
@@ -18,6 +18,8 @@ Ts == {RZero, ROne}                                                    \* tangen
 Ds == {<<v, t>> : v \in Rs, t \in Ts}                                  \* dual numbers
 Zs == {<<re, im>> : re \in Ds, im \in Ds}                              \* complex scalars with tangents (64)
 Zv == {<<<<re, RZero>>, <<im, RZero>>>> : re \in Rs, im \in Rs}        \* complex scalars, plain values (16)
+Zt == {<<re, <<im, RZero>>>> : re \in Ds, im \in Rs}                    \* tangent on the real part only (32)
+Zw == {<<<<re, RZero>>, <<im, RZero>>>> : re \in Rs \ {RZero}, im \in Rs \ {RZero}}   \* 9 plain values
 ZsNZ == {z \in Zs : z[1][1] # RZero \/ z[2][1] # RZero}
 \* 2-vectors and 2x2 matrices of plain complex values over {0, 1, i, 1-i, 2}
 Zm == {<<DZero, DZero>>, <<DZero, DOne>>, <<DOne, DInt(-1)>>, <<DInt(2), DZero>>}
@@ -38,14 +40,14 @@ Law2 == (\A z \in Zs : ZConj(ZConj(z)) = z) /\ (\A x \in Ds : ZConj(ZOfD(x)) = Z
 \* z = FloatToComplex(Real z) + i FloatToComplex(Imag z)
 Law3 == \A z \in Zs : ZAdd(ZOfD(ZRe(z)), ZMul(<<DZero, DOne>>, ZOfD(ZIm(z)))) = z
 \* Conjugate distributes over Add and Multiply (values and tangents)
-Law4 == \A z \in Zs, w \in Zs : ZConj(ZAdd(z, w)) = ZAdd(ZConj(z), ZConj(w)) /\ ZConj(ZMul(z, w)) = ZMul(ZConj(z), ZConj(w))
+Law4 == \A z \in Zt, w \in Zs : ZConj(ZAdd(z, w)) = ZAdd(ZConj(z), ZConj(w)) /\ ZConj(ZMul(z, w)) = ZMul(ZConj(z), ZConj(w))
 \* z conj(z) = |z|^2 + 0i; Absolute(z)^2 = |z|^2 where defined
 Law5 == \A z \in Zs :
            /\ ZVal(ZMul(z, ZConj(z))) = <<ZNorm2(z)[1], RZero>>
            /\ (~DIsBad(ZAbs(z)) => RMul(ZAbs(z)[1], ZAbs(z)[1]) = ZNorm2(z)[1])
 \* Multiply is commutative, associative on values, distributes over Add
-Law6 == /\ \A z \in Zs, w \in Zs : ZMul(z, w) = ZMul(w, z)
-        /\ \A z \in Zv, w \in Zv, u \in Zv :
+Law6 == /\ \A z \in Zt, w \in Zs : ZMul(z, w) = ZMul(w, z)
+        /\ \A z \in Zw, w \in Zw, u \in Zv :
               /\ ZMul(z, ZMul(w, u)) = ZMul(ZMul(z, w), u)
               /\ ZMul(z, ZAdd(w, u)) = ZAdd(ZMul(z, w), ZMul(z, u))
 \* Reciprocal: z * (1/z) = 1 with zero tangent; 1/0 undefined
@@ -199,6 +201,17 @@ Law26 == LET P1 == << LNode("LoopIndex", <<>>, <<1, 3>>, <<>>, "i"), LNode("Rang
             /\ Ev(P2, 6, <<>>, <<0, 0>>) = [sh |-> <<3>>, v |-> <<DInt(0), DInt(1), DInt(0)>>]
             /\ Ev(P2, 9, <<>>, <<0, 0>>) = [sh |-> <<2, 3>>, v |-> <<DInt(5), DInt(5), DInt(5), DInt(7), DInt(7), DInt(7)>>]
 
+\* Monomial(values, (x,), ((i,),)) = values * Take(x, i); with the factor twice = values * Take(x, i)^2; scalar factor scales
+Law27 == LET P(d, p) == << LNode("Const", <<>>, <<2, 1, -1, 1, 1, 2>>, <<3>>, "f"), LNode("Const", <<>>, <<3, 1, 5, 1>>, <<2>>, "f"),
+                          LNode("Const", <<>>, <<1, 1, 0, 1, 1, 1>>, <<3>>, "i"), LNode("Const", <<>>, <<-2, 1>>, <<>>, "f"),
+                          LNode("Monomial", d, p, <<3>>, "f") >>
+             V(d, p) == Ev(P(d, p), 5, <<>>, <<0, 0, 0>>).v
+             Q(a, b) == DOf(<<a, b>>)
+         IN /\ V(<<1, 2, 3>>, <<1>>) = <<Q(10, 1), Q(-3, 1), Q(5, 2)>>
+            /\ V(<<1, 2, 3, 2, 3>>, <<2, 1>>) = <<Q(50, 1), Q(-9, 1), Q(25, 2)>>
+            /\ V(<<1, 4>>, <<1>>) = <<Q(-4, 1), Q(2, 1), Q(-1, 1)>>
+            /\ V(<<1, 4, 2, 3>>, <<1, 1>>) = <<Q(-20, 1), Q(6, 1), Q(-5, 1)>>
+
 LawNames == <<
   "Real(FloatToComplex x) = x, Imag(FloatToComplex x) = 0",
   "Conjugate is an involution and fixes FloatToComplex",
@@ -225,7 +238,8 @@ LawNames == <<
   "SearchSorted left/right insertion points",
   "unique(): UniqueMask/Find/UniqueInverse reconstruct the array",
   "_SizesToOffsets cumulative sums; CompressIndices row pointer property",
-  "loop dependent chunk sizes in LoopConcat / LoopSum of Inflate"
+  "loop dependent chunk sizes in LoopConcat / LoopSum of Inflate",
+  "Monomial = values times the gathered factors"
 >>
 Holds(k) == CASE k = 1 -> Law1
            [] k = 2 -> Law2
@@ -253,10 +267,14 @@ Holds(k) == CASE k = 1 -> Law1
            [] k = 24 -> Law24
            [] k = 25 -> Law25
            [] k = 26 -> Law26
+           [] k = 27 -> Law27
 
 NLaws == Len(LawNames)
-Init == law \in 1..NLaws
-Next == FALSE /\ UNCHANGED law
+\* TLC evaluates invariants of initial states on one thread; to use all workers the laws are the SUCCESSORS of G group
+\* states (law = -g): worker threads expand the groups in parallel and evaluate the law of every successor they generate
+G == 9
+Init == law \in {-g : g \in 1..G}
+Next == law < 0 /\ law' \in {k \in 1..NLaws : k % G = (-law) % G}
 Spec == Init /\ [][Next]_law
-LawHolds == Holds(law)
+LawHolds == law > 0 => Holds(law)
 =============================================================================
